@@ -4,6 +4,7 @@ import (
 	"fmt"
 	"sort"
 	"strings"
+	"sync"
 
 	bexpr "github.com/hashicorp/go-bexpr"
 	"github.com/hashicorp/go-bexpr/grammar"
@@ -72,7 +73,75 @@ func c11Inputs(c *mon.Ctx, idx int) (s string, pathological bool, kind string) {
 	}
 }
 
+// c11Concurrent: budgets are per parse - parses that overlap in other
+// goroutines must not change a parse's step count or its threshold.
+func c11Concurrent(c *mon.Ctx, idx int) {
+	r := c.RNG(idx, 7)
+	type job struct {
+		s  string
+		n0 uint64
+		ok bool
+	}
+	var jobs []job
+	for len(jobs) < 8 {
+		s := c10Corpus[r.Intn(len(c10Corpus))]
+		if r.Intn(3) == 0 {
+			s = c15Mutate(r, s)
+		}
+		base, herr := c11Parse(s, 0)
+		if herr != "" || base.max {
+			continue
+		}
+		jobs = append(jobs, job{s, base.steps, base.ok})
+	}
+	const G = 8
+	bad := make([]string, G)
+	var ready, done sync.WaitGroup
+	gate := make(chan struct{})
+	ready.Add(G)
+	done.Add(G)
+	for gi := 0; gi < G; gi++ {
+		gi := gi
+		go func() {
+			defer done.Done()
+			ready.Done()
+			<-gate
+			for k := 0; k < 30 && bad[gi] == ""; k++ {
+				j := jobs[(gi+k)%len(jobs)]
+				// exactly N suffices, N-1 does not, and a limited parse never exceeds n+1 steps
+				for _, n := range []uint64{j.n0, j.n0 - 1, j.n0 / 2, 0} {
+					res, herr := c11Parse(j.s, n)
+					switch {
+					case herr != "":
+						bad[gi] = herr
+					case n > 0 && res.steps > n+1:
+						bad[gi] = fmt.Sprintf("budget %d executed %d steps on %q", n, res.steps, j.s)
+					case (n == 0 || n >= j.n0) && (res.max || res.ok != j.ok || res.steps != j.n0):
+						bad[gi] = fmt.Sprintf("budget %d (N=%d) on %q: max=%v ok=%v steps=%d", n, j.n0, j.s, res.max, res.ok, res.steps)
+					case n > 0 && n < j.n0 && !res.max:
+						bad[gi] = fmt.Sprintf("budget %d below N=%d on %q did not fail with the max-expressions error", n, j.n0, j.s)
+					}
+				}
+			}
+		}()
+	}
+	ready.Wait()
+	close(gate)
+	done.Wait()
+	for _, b := range bad {
+		if b != "" {
+			c.Violation("C11 concurrent-parses-interfere", "a budgeted parse behaved differently while other goroutines were parsing", map[string]any{"detail": clip(b, 500)})
+			break
+		}
+	}
+	c.Evals(G * 30 * 4)
+	c.Count("concurrent_budget_rounds")
+}
+
 func c11Run(c *mon.Ctx, idx int) {
+	if idx%60 == 0 {
+		c11Concurrent(c, idx)
+	}
 	s, pathological, kind := c11Inputs(c, idx)
 	c.Count("kind:" + kind)
 	d := func(n uint64) map[string]any {
@@ -269,7 +338,7 @@ func init() {
 		NumCases: func(tier string) int { return tierN(tier, 1200, 40000) },
 		Run:      c11Run,
 		Required: func(tier string) []string {
-			return []string{"inputs", "valid_inputs", "invalid_inputs", "pathological_inputs", "pathological_rejected_within_budget", "rejected_below_threshold", "inputs_with_every_budget", "kind:nested-balanced", "kind:nested-unbalanced", "kind:long-tail", "kind:chain"}
+			return []string{"inputs", "concurrent_budget_rounds", "valid_inputs", "invalid_inputs", "pathological_inputs", "pathological_rejected_within_budget", "rejected_below_threshold", "inputs_with_every_budget", "kind:nested-balanced", "kind:nested-unbalanced", "kind:long-tail", "kind:chain"}
 		},
 	})
 }
